@@ -34,6 +34,7 @@ pub fn choose_layout(ch: &mut Chooser) -> Layout {
         free_mini_sectors: ch.pick("cfb.free-mini", &[0usize, 1]),
         name_garbage: ch.flag("cfb.stale-bytes-after-name-terminator"),
         size_hi_garbage: ch.flag("cfb.v3-junk-in-upper-half-of-size-field"),
+        empty_minifat_sector: ch.flag("cfb.mini-fat-sector-without-mini-stream"),
     }
 }
 
